@@ -169,9 +169,29 @@ def b_many(ch):
     return st
 
 
+def b_interp(ch):
+    """every length 3 ... 170 of an IMP data card written '<first> (m-2)i 0': the interpolated importances are
+    non-zero except the last one, whatever the rounding of the intermediate values"""
+    m = ch.choose('cells', list(range(3, 171)), free=True)
+    first = ch.choose('first', ['1', '2', '10', '0.007', '3.5'], free=True)
+    tail = ch.choose('tail', ['0', '0 0', '0 1'], free=True)
+    ntail = len(tail.split())
+    st = St('c12 interpolated importances')
+    ncell = m + ntail - 1
+    st.surfs = ['%d px %d' % (i + 1, i) for i in range(ncell + 1)]
+    st.cells = ['%d 0 %d -%d' % (100 + i, i + 1, i + 2) for i in range(ncell)]
+    st.data = ['imp:n %s %di %s' % (first, m - 2, tail)]
+    st.expected = {100 + i: 1 for i in range(m - 1)}
+    for j, v in enumerate(tail.split()):
+        st.expected[100 + m - 1 + j] = int(v)
+    st.filled = None
+    return st
+
+
 def scenarios(tier):
     q = tier == 'quick'
-    return [Scn('many-cells', b_many, None, None, 'decks of 12 / 40 / 130 cells, IMP cards with long repeats')] + [Scn('cells3', build_n(3), 4 if q else None, None, '3 cells'),
+    return [Scn('interp-lengths', b_interp, None, None, 'IMP data cards with nI interpolation down to 0, every length 3 ... 170'),
+            Scn('many-cells', b_many, None, None, 'decks of 12 / 40 / 130 cells, IMP cards with long repeats')] + [Scn('cells3', build_n(3), 4 if q else None, None, '3 cells'),
             Scn('cells4', build_n(4), 3 if q else 4, 4, '4 cells'),
             Scn('cells5', build_n(5), 3 if q else 4, 4, '5 cells')]
 
